@@ -29,15 +29,18 @@ ASSUMPTIONS = [
     'order among attributes / namespace nodes of one element is irrelevant here (paths name them)',
 ]
 FLOORS = {'rt:pi': (0.03, 'rt:node'), 'rt:pos>1': (0.08, 'rt:node'), 'rt:namespaced-name': (0.05, 'rt:node'),
-          'rt:text': (0.10, 'rt:node'), 'rt:namespace-name-begins-with-number': (0.02, 'rt:node'), 'rt:parser-with-default-namespace': (0.5, 'rt:node'),
+          'rt:text': (0.10, 'rt:node'), 'rt:name-starts-with-xpath-word/element': (0.005, 'rt:node'),
+          'rt:name-starts-with-xpath-word/attribute': (0.02, 'rt:node'), 'rt:name-starts-with-xpath-word/pi': (0.005, 'rt:node'),
+          'rt:name-starts-with-xpath-word/namespace': (0.01, 'rt:node'), 'rt:namespace-name-begins-with-number': (0.02, 'rt:node'), 'rt:parser-with-default-namespace': (0.5, 'rt:node'),
           'fr:fragment-with-same-named-top-level-elements': (0.15, 'fr:fragment'),
           'fr:under-later-same-named-top-level-element': (0.05, 'fr:node'),
           'sc:attribute-defaulted': (0.12, 'sc:node'), 'sc:whitespace-only-text-in-element-only-content': (0.08, 'sc:node'), 'sc:default-or-fixed-attribute-set-explicitly': (0.08, 'sc:node'),
           'rt:root()-path-evaluated-from-attribute-or-namespace-focus': (0.05, 'rt:node'),
-          'rt:no-namespace-step-with-default-namespace-twin': (0.0015, 'rt:node'), 'rt:comment': (0.03, 'rt:node'), 'rt:pi-function-name-target': (0.01, 'rt:node')}
+          'rt:no-namespace-step-with-default-namespace-twin': (0.0002, 'rt:node'), 'rt:comment': (0.03, 'rt:node'), 'rt:pi-function-name-target': (0.01, 'rt:node')}
 
 FN = 'http://www.w3.org/2005/xpath-functions'
-NS_ARGS = [None, {'p': 'urn:p'}, {'': 'urn:d', 'p': 'urn:p', 'q': 'urn:q'}, {'q': 'urn:q', '': 'urn:d'}]
+NS_ARGS = [None, {'p': 'urn:p'}, {'': 'urn:d', 'p': 'urn:p', 'q': 'urn:q'}, {'q': 'urn:q', '': 'urn:d'},
+           {'for.each': 'urn:kw1', 'div-x': 'urn:kw3', 'union': 'urn:kw5', 'p': 'urn:p'}, {'if.x': 'urn:kw2', 'eq.x': 'urn:kw4', 'to1': 'urn:kw6'}]
 
 _cfg = st.fixed_dictionaries({
     'backend': st.sampled_from(['et', 'lxml']),
@@ -49,10 +52,18 @@ _cfg = st.fixed_dictionaries({
 })
 
 
+# three quarters of the element names stay a/b (same-name siblings, default-namespace twins), the rest starts with an XPath word (for.each, div-x, if, to1 ...)
+_KW = gx.KEYWORD_NAMES
+_KWSET = frozenset(_KW)
+_ELEM_POOL = ('a', 'b') * (len(_KW) * 3 // 2) + _KW
+_ATTR_POOL = gx.ATTR_LOCALS * (len(_KW) // 3) + _KW
+_PI_POOL = (gx.PI_TARGETS_FN + ('a', 'b')) * (len(_KW) // 12) + _KW
+
+
 def _cases(max_elems):
     return st.fixed_dictionaries({
-        'spec': gx.tree_specs(max_elems=max_elems, max_depth=4, max_attrs=3, pi_targets=gx.PI_TARGETS_FN + ('a', 'b'), misc_weight=4,
-                              elem_locals=('a', 'b'), num_uris=True),
+        'spec': gx.tree_specs(max_elems=max_elems, max_depth=4, max_attrs=3, pi_targets=_PI_POOL, misc_weight=4,
+                              elem_locals=_ELEM_POOL, num_uris=True, attr_locals=_ATTR_POOL, kw_prefixes=True),
         'cfgs': st.lists(_cfg, min_size=3, max_size=3),
     })
 
@@ -264,6 +275,10 @@ def judge_roundtrip_one(spec, cfg, rec: Recorder | None = None) -> list[Disc]:
                 classes.append('rt:namespaced-name')
                 if rn.name[1] in '0123456789.':
                     classes.append('rt:namespace-name-begins-with-number')
+            nm = (rn.name or '').rpartition('}')[2] if kind in ('element', 'attribute', 'pi', 'namespace') else ''
+            if nm in _KWSET or nm in gx.KEYWORD_PREFIXES:
+                classes.append('rt:name-starts-with-xpath-word')
+                classes.append(f'rt:name-starts-with-xpath-word/{kind}')
             if kind == 'pi' and rn.name in _FUNCTION_LIKE:
                 classes.append('rt:pi-function-name-target')
             if defns:
@@ -640,7 +655,7 @@ def jobs(tier, seed):
     q = tier == 'quick'
     out = []
     nr, ni, nf = (11, 2, 2) if q else (10, 3, 2)
-    per_r, per_i, per_f = (700, 1500, 1200) if q else (8000, 16000, 12000)
+    per_r, per_i, per_f = (450, 1500, 1200) if q else (6000, 16000, 12000)
     me = 10 if q else 24
     for i in range(nr):
         out.append({'check': 'roundtrip', 'shard': i, 'n': per_r, 'max_elems': me, 'seed': derive_seed(seed, 'C14', 'roundtrip', i)})
